@@ -172,6 +172,45 @@ pub fn tournament_with_row_defects(rng: &mut Rng, order: usize, r: usize, above:
     g
 }
 
+/// A dense digraph of `order` vertices at the semicomplete boundary, a pure function of (order, seed):
+/// complete, complete minus one or a few vertex pairs, a tournament, or a tournament with one emptied and
+/// one doubled pair. Every variant has at least n(n-1)/2 arcs, so a size shortcut decides nothing; the
+/// emptied pairs sit in structured rows (first, last, middle, the one before a 1024 boundary).
+pub fn dense_boundary(order: usize, seed: u64) -> Dg {
+    let mut rng = Rng::new(crate::rng::mix(&[seed, order as u64, 0xD3B5]));
+    let n = order;
+    let row = |rng: &mut Rng| -> usize {
+        match rng.below(6) {
+            0 => 0,
+            1 => n.saturating_sub(2),
+            2 => (n - 1) / 2,
+            3 => 1023.min(n.saturating_sub(2)),
+            _ => rng.below(n.max(2) - 1),
+        }
+    };
+    match rng.below(6) {
+        0 => Dg::complete(n),
+        1 => random_tournament(&mut rng, n),
+        2 => {
+            let r = row(&mut rng);
+            let above = rng.chance(1, 2);
+            tournament_with_row_defects(&mut rng, n, r, above)
+        }
+        k => {
+            let mut g = Dg::complete(n);
+            if n >= 2 {
+                for _ in 0..(if k == 3 { 1 } else { rng.range(2, 3) }) {
+                    let u = row(&mut rng);
+                    let w = rng.range(u + 1, n - 1);
+                    let _ = g.a.remove(&(u, w));
+                    let _ = g.a.remove(&(w, u));
+                }
+            }
+            g
+        }
+    }
+}
+
 /// `k` distinct vertex ids. Styles: contiguous 0..k; contiguous with holes;
 /// sparse ids from a wide range; shifted block (no vertex 0).
 pub fn random_vertex_set(rng: &mut Rng, k: usize, max_id: usize) -> BTreeSet<usize> {
